@@ -12,9 +12,9 @@ mv "tests/demo_$ID.rs" /tmp/demo_$ID.rs.aside
 cargo test --workspace --no-fail-fast --offline > "$OUT/suite_with_change.log" 2>&1; S1=$?
 mv /tmp/demo_$ID.rs.aside "tests/demo_$ID.rs"
 cargo test --offline --test "demo_$ID" > "$OUT/demo_with_change.log" 2>&1; D1=$?
-git stash push -q -- src
+git apply -R "$OUT/patch.diff"
 cargo test --offline --test "demo_$ID" > "$OUT/demo_without_change.log" 2>&1; D0=$?
-git stash pop -q
+git apply "$OUT/patch.diff"
 echo "suite_with_change_exit=$S1 demo_with_change_exit=$D1 demo_without_change_exit=$D0"
 grep -h "test result" "$OUT/suite_with_change.log" | tr '\n' ' '
 echo
